@@ -816,7 +816,7 @@ func newControlPlaneWithContextOptions(
 			return nil, err
 		}
 		if plane.sharedBpfReload {
-			if err = clearReloadDomainRoutingMap(core.bpf.Load()); err != nil {
+			if err = core.clearReloadDomainRouting(); err != nil {
 				return nil, fmt.Errorf("clearReloadDomainRoutingMap: %w", err)
 			}
 		}
@@ -878,6 +878,17 @@ func ParseGroupOverrideOption(group config.Group, global config.Global, log *log
 // them here, otherwise established flows may lose cached state and get rerouted.
 func clearReloadDomainRoutingMap(bpf *bpfObjects) error {
 	return BpfMapBatchDeleteAll[[4]uint32, bpfDomainRouting](bpf.DomainRoutingMap)
+}
+
+// clearReloadDomainRouting clears domain_routing_map together with the tracker
+// that mirrors it, so that the DNS cache replay that follows re-installs every
+// live entry.
+func (c *controlPlaneCore) clearReloadDomainRouting() error {
+	if err := clearReloadDomainRoutingMap(c.bpf.Load()); err != nil {
+		return err
+	}
+	c.domainRouting.reset()
+	return nil
 }
 
 // validateRequiredBpfMapsLoaded checks maps that are required by both DNS and
@@ -1465,7 +1476,7 @@ func (c *ControlPlane) CommitPreparedDatapath() error {
 		c.core.lpmTrieIndices = lpmIndices
 	}
 	if c.sharedBpfReload {
-		if err := clearReloadDomainRoutingMap(c.core.bpf.Load()); err != nil {
+		if err := c.core.clearReloadDomainRouting(); err != nil {
 			return fmt.Errorf("clearReloadDomainRoutingMap: %w", err)
 		}
 	}
@@ -1487,7 +1498,7 @@ func (c *ControlPlane) RebuildReloadDatapath() error {
 		return fmt.Errorf("rebuild routing kernspace: %w", err)
 	}
 	c.ReplaceLpmIndices(lpmIndices)
-	if err := clearReloadDomainRoutingMap(c.core.bpf.Load()); err != nil {
+	if err := c.core.clearReloadDomainRouting(); err != nil {
 		return fmt.Errorf("rebuild clearReloadDomainRoutingMap: %w", err)
 	}
 	cache := c.CloneDnsCache()
